@@ -329,3 +329,47 @@ def lagr_general(rng, tier):
 
 def lagr_dispatch(rng, tier):
     return _lagr(rng, tier, False)
+
+
+def _pol(rng, tier, general):
+    cu = bool(rng.integers(0, 2))
+    rmin, rmax = float(rng.uniform(0.1, 1.0)), float(rng.uniform(3.0, 8.0))
+    k1, d1, _, bq = _space_on(rng, 0.0, 2 * np.pi, cu, periodic=True)
+    k2, d2, _, br = _space_on(rng, rmin, rmax, cu, periodic=False)
+    n1 = (int(k1[3]) + 3) if cu else (len(k1) - d1 - 1)
+    n2 = (int(k2[3]) + 3) if cu else (len(k2) - d2 - 1)
+    amp = float(rng.choice([0.0, 0.3, 3.0, 30.0]))     # large potentials push feet out of the radial domain
+    cphi = amp * rng.standard_normal((n1, n2))
+    cpol = rng.standard_normal((n1, n2))
+    if not cu:
+        # periodic in theta: wrapped coefficients
+        cphi[n1 - d1:, :] = cphi[:d1, :]
+        cpol[n1 - d1:, :] = cpol[:d1, :]
+    nq, nr = int(rng.integers(1, 5)), int(rng.integers(1, 5))
+    qPts = np.sort(rng.uniform(0, 2 * np.pi, nq))
+    rPts = np.concatenate([[rmin], np.sort(rng.uniform(rmin, rmax, max(nr - 2, 0))), [rmax]])[:max(nr, 1)] if nr > 1 else np.array([rmin])
+    if nr > 1:
+        rPts[-1] = rmax
+    nr = len(rPts)
+    w = lambda: rng.standard_normal((nq, nr))
+    d = dict(f=w(), dt=float(rng.choice([0.1, -0.1, 1.0, -2.0])), v=float(rng.uniform(-5, 5)), rPts=rPts, qPts=qPts,
+             drPhi_0=w(), dthetaPhi_0=w(), drPhi_k=w(), dthetaPhi_k=w(), endPts_k1_q=w(), endPts_k1_r=w(), endPts_k2_q=w(), endPts_k2_r=w(),
+             kts1Phi=k1, kts2Phi=k2, coeffsPhi=cphi, deg1Phi=d1, deg2Phi=d2, kts1Pol=k1.copy(), kts2Pol=k2.copy(), coeffsPol=cpol,
+             deg1Pol=d1, deg2Pol=d2, B0=float(rng.choice([1.0, 2.5])), nulBound=bool(rng.integers(0, 2)))
+    d.update(PHYS)
+    if general:
+        pre = 'cu_' if cu else 'nu_'
+        d['eval_spline_2d_cross'] = _fref(CU if cu else NU, pre + 'eval_spline_2d_cross')
+        d['eval_spline_2d_scalar'] = _fref(CU if cu else NU, pre + 'eval_spline_2d_scalar')
+    else:
+        d['cubic_uniform_splines'] = cu
+    d['__env__'] = _spl_env(cu)
+    return d
+
+
+def pol_general(rng, tier):
+    return _pol(rng, tier, True)
+
+
+def pol_dispatch(rng, tier):
+    return _pol(rng, tier, False)
